@@ -16,13 +16,15 @@ pub(super) fn l2_stub(_a: &[f32], b: &[f32]) -> f32 {
     }
 }
 
+// The document vector is built from a LITERAL (exact capacity, concrete length): with a push loop the Vec
+// length stays opaque to CBMC's constant propagation and every instance costs 10-20x more (m = 1: 66 s vs 3 s),
+// which made the harnesses undecidable as soon as the code under test grew (Vec::retain, a second truncate).
 macro_rules! search_exact {
-    ($name:ident, $m:expr) => {
+    ($name:ident, $m:expr, [$($i:expr),*]) => {
         #[kani::proof]
         #[kani::stub(l2_distance, l2_stub)]
         #[kani::unwind(8)]
         fn $name() {
-            let mut documents: Vec<VecDocument> = Vec::new();
             let ids: [u64; $m] = kani::any();
             let mut i = 0;
             while i < $m {
@@ -31,22 +33,20 @@ macro_rules! search_exact {
                 unsafe {
                     GHOST_DIST[i] = d;
                 }
-                // distinct frame ids (an index holds one embedding per frame)
                 let mut j = 0;
                 while j < i {
                     kani::assume(ids[j] != ids[i]);
                     j += 1;
                 }
-                documents.push(VecDocument { frame_id: ids[i], embedding: vec![i as f32] });
                 i += 1;
             }
+            let documents: Vec<VecDocument> = vec![$(VecDocument { frame_id: ids[$i], embedding: vec![$i as f32] }),*];
             let index = VecIndex::Uncompressed { documents };
             let k: usize = kani::any();
             let query = [0.5f32];
             let hits = index.search(&query, k);
             let want = if k < $m { k } else { $m };
             assert!(hits.len() == want, "min(k, m) hits");
-            // each hit is a document with its own distance; hits are distinct; order non-decreasing
             let mut used = [false; $m];
             let mut h = 0;
             while h < hits.len() {
@@ -67,7 +67,6 @@ macro_rules! search_exact {
                 }
                 h += 1;
             }
-            // no omitted frame is strictly closer than the last hit
             if hits.len() > 0 {
                 let last = hits[hits.len() - 1].distance;
                 let mut d = 0;
@@ -83,12 +82,13 @@ macro_rules! search_exact {
         }
     };
 }
-search_exact!(search_exact_m0, 0);
-search_exact!(search_exact_m1, 1);
-search_exact!(search_exact_m2, 2);
-search_exact!(search_exact_m3, 3);
-search_exact!(search_exact_m4, 4);
-search_exact!(search_exact_m5, 5);
+search_exact!(search_exact_m0, 0, []);
+search_exact!(search_exact_m1, 1, [0]);
+search_exact!(search_exact_m2, 2, [0, 1]);
+search_exact!(search_exact_m3, 3, [0, 1, 2]);
+search_exact!(search_exact_m4, 4, [0, 1, 2, 3]);
+search_exact!(search_exact_m5, 5, [0, 1, 2, 3, 4]);
+search_exact!(search_exact_m6, 6, [0, 1, 2, 3, 4, 5]);
 
 /// Empty query => no hits, whatever the index holds.
 #[kani::proof]
@@ -100,3 +100,4 @@ fn search_empty_query() {
     let hits = index.search(&[], kani::any());
     assert!(hits.is_empty());
 }
+
